@@ -71,7 +71,7 @@ def parse_strace(path, find_pid_only=True):
     return attempts, others
 
 
-NAMES = ["a", "b", "c", "d", "e", "x.txt", "y.txt", "k", "aa", "ab", "ba", "z.c", "m", "n"]
+NAMES = ["a", "b", "c", "d", "e", "x.txt", "y.txt", "k", "aa", "ab", "ba", "z.c", "m", "n", "a.", "b.", "k.", "..a", ".b", "c..", "x.txt."]
 TESTS_ANY = [["-name", "a*"], ["-name", "*.txt"], ["-name", "[a-c]"], ["-path", "*/a/*"], ["-path", "*b*"], ["-name", "*"],
              ["-regex", ".*/[ab].*"], ["-name", "k"], ["!", "-name", "b*"], ["-iname", "A*"]]
 TESTS_STATIC = [["-type", "f"], ["-type", "d"], ["-type", "l"], ["-size", "+0"], ["-size", "0"], ["-perm", "600"], ["-perm", "-040"],
@@ -297,6 +297,65 @@ def worker(job):
     return st
 
 
+def vanished_worker(job):
+    """A matched entry that is gone by the time -delete is evaluated (removed by an earlier action of the same expression):
+    the removal fails, so -delete must be false, diagnosed, and make find exit non-zero. Shapes: `E -delete -delete` and
+    `E -exec rm -f {} ; -delete` on files; the final state must equal the state after removing each matched file once."""
+    k, nruns, seed = job
+    st = Stats()
+    rng = common.rng_for(seed, "C10v", k)
+    base = common.mkscratch("C10v%d" % k)
+    try:
+        for t in range(nruns):
+            sb = os.path.join(base, "s%d" % t)
+            os.makedirs(sb)
+            nodes = treegen.random_tree(rng, "r", max_nodes=rng.choice([6, 14]), max_depth=3, names=NAMES, p_link=0.1, link_kinds=("file", "dangling"),
+                                        sizes=(0, 1, 5))
+            treegen.build(sb, nodes)
+            test = rng.choice([["-type", "f"], ["-type", "f", "-name", "*a*"], ["!", "-type", "d"], ["!", "-type", "d", "-name", "*.txt*"], ["-type", "l"],
+                               ["!", "-type", "d", "-name", "*."]])      # (only non-directories: the first step must be able to remove them)
+            shape = rng.choice(["double-delete", "rm-then-delete"])
+            mid = ["-delete"] if shape == "double-delete" else ["-exec", "rm", "-f", "{}", ";"]
+            args = [common.FIND, "r", "-sorted"] + test + mid + ["-delete", "-printf", "T:%p\\0", "-o"] + test + ["-printf", "F:%p\\0"]
+            # which entries match (no side effects)
+            rc0, out0, err0, to0 = common.run_cmd([common.FIND, "r", "-sorted", "-depth"] + test + ["-print0"], cwd=sb, env=common.clean_env(), timeout=60)
+            matched = [x.decode("utf-8", "surrogateescape") for x in out0.split(b"\0")[:-1]]
+            rc, out, err, to = common.run_cmd(args, cwd=sb, env=common.clean_env(), timeout=60)
+            st.inc("evaluations")
+            st.inc("vanished_entry_runs")
+            st.inc("vanished:" + shape)
+            st.add("distinct", (shape, tuple(test), tuple(n.path for n in nodes)))
+            rp = {"tree": [n.to_json() for n in nodes], "args": args[1:]}
+            if to or rc in (101, 134, -6, -11):
+                st.violate("panic-or-hang", None, {"args": args[1:], "rc": rc, "stderr": err[-300:]}, rp)
+                common.force_rmtree(sb)
+                continue
+            labels = [x.decode("utf-8", "surrogateescape") for x in out.split(b"\0")[:-1]]
+            problems = []
+            left = [m for m in matched if os.path.lexists(os.path.join(sb, m))]
+            if left:
+                problems.append("matched entries still present: %r" % left[:4])
+            true_for = [x[2:] for x in labels if x.startswith("T:")]
+            if true_for:
+                problems.append("-delete evaluated to true for entries that were already gone: %r" % true_for[:4])
+            if matched:
+                st.inc("vanished_entries_evaluated", len(matched))
+                if sorted(x[2:] for x in labels if x.startswith("F:")) != sorted(matched):
+                    problems.append("the failed -delete must be false for every matched entry: false for %r, matched %r" % (sorted(x[2:] for x in labels if x.startswith("F:"))[:5], sorted(matched)[:5]))
+                if rc == 0:
+                    problems.append("exit status 0 although %d removals failed (entry already gone)" % len(matched))
+                if not err.strip():
+                    problems.append("no diagnostic for the failed removals")
+            elif rc != 0:
+                problems.append("exit status %r although nothing matched" % rc)
+            if problems:
+                st.violate("delete", None, {"args": args[1:], "problems": problems[:4], "exit": rc, "stderr": err[-300:]}, rp)
+            common.force_rmtree(sb)
+    finally:
+        common.force_rmtree(base)
+    return st
+
+
 def run(ctx):
     ctx.rule = ("sandboxes with files, nested directories, links to files and directories inside and outside the starting points, "
                 "dangling links, a sibling directory and an 'outside' directory; state-independent test expressions (name/path/regex, "
@@ -314,5 +373,8 @@ def run(ctx):
     nw = common.NCPU
     n = ctx.scale(320, 8000)
     ctx.pmap(worker, [(k, n // nw, ctx.seed) for k in range(nw)])
+    nv = ctx.scale(160, 4000)
+    ctx.pmap(vanished_worker, [(k, max(2, nv // nw), ctx.seed) for k in range(nw)])
+    ctx.require("vanished_entries_evaluated", 10)
     for key in ("runs_with_failed_removal", "runs_mode_P", "runs_mode_H", "runs_mode_L", "link_entries_removed", "removal_events_observed", "sandboxes_with_non_utf8_names"):
         ctx.require(key, 3)
